@@ -19,7 +19,7 @@ MODULE = "KafkaVerif.Props.C05"
 def run(ctx):
     ctx.assumptions += [
         "record sets smaller than 2^31 bytes, fewer than 2^31 records per batch (int32 fields do not wrap)",
-        "timestamps are non-negative Unix times; a time inside the first millisecond of the epoch is 'unset' for the protocol writer",
+        "produce direction: timestamps are non-negative Unix times; a time inside the first millisecond of the epoch is 'unset' for the protocol writer; fetch direction: also records without timestamp (-1), which must be delivered as the zero time.Time",
         "codec: dec (enc x) = x (property C16); the harness decompresses with the library codec",
         "Conn read path: exact comparison (null vs empty told apart since /repo 4db07b4; control batches passed over since 314fa1c)",
         "writers never set the timestamp-type bit (hypothesis logAppend attrs = false of the writer theorems); brokers may: the fetch generator sets it",
